@@ -829,9 +829,12 @@ class Kinds(object):
                     out.append(r)
             return out
         # xml reader: getattr(self, 'parse_' + node.tag)(node, fmt)
-        if isinstance(fn, ast.Call) and isinstance(fn.func, ast.Name) and fn.func.id == "getattr" and len(fn.args) >= 2 \
-                and isinstance(fn.args[1], ast.BinOp) and isinstance(fn.args[1].left, ast.Constant) and f.cls is not None:
-            prefix = fn.args[1].left.value
+        parts = None
+        if isinstance(fn, ast.Call) and isinstance(fn.func, ast.Name) and fn.func.id == "getattr" and len(fn.args) >= 2 and f.cls is not None:
+            from .astutil import template_parts
+            parts = template_parts(None, fn.args[1])        # 'parse_' + tag, 'parse_%s' % tag, f'parse_{tag}', ...
+        if parts and len(parts) == 2 and parts[0][0] == "lit" and parts[1][0] == "hole" and parts[0][1]:
+            prefix = parts[0][1]
             out = [m for c in [f.cls] + list(f.cls.subclasses) for name, m in sorted(c.methods.items())
                    if name.startswith(prefix) and name != prefix.rstrip("_")]
             return _uniq(out) or None
